@@ -180,15 +180,7 @@ def correspond(ctx):
         meta.append(wit)
     if meta:
         ctx.sample({'variants': dict(meta[0], tree=sl.show(meta[0]['tree']))})
-    bad, errs = ctx.coq_bad_indices('c16var', IMPORTS, 'tr_check', cases, chunk=600)
-    for e in errs:
-        ctx.violation('correspondence:coq-eval', {'error': e}, False, e[:300])
-    for i in bad[:3]:
-        ctx.violation('correspondence:Shape/Transform.v vs visitors.py traversals',
-                      dict(meta[i], no_longer_checks='value / call log of the four traversals == Coq models',
-                           tree=sl.show(meta[i]['tree'])), False,
-                      'value or call log of a traversal differs from the Coq model (the four classes agree with each other)')
-
+    deferred = [('(CaseTR %s)' % c, ('tr', m)) for c, m in zip(cases, meta)]
     ctx.note('t_variants=%.1f' % (__import__('time').time()-ctx.t0))
     # (c) DAG-shaped inputs (python only) ------------------------------------------------------------------------
     from lark import Tree
@@ -297,14 +289,26 @@ def correspond(ctx):
     ctx.note('t_emb_py=%.1f' % (__import__('time').time()-ctx.t0))
     if meta:
         ctx.sample({'embedded': meta[0]})
-    bad, errs = ctx.coq_bad_indices('c16emb', IMPORTS, 'emb_check', cases, chunk=400)
+    deferred += [('(CaseEMB %s)' % c, ('emb', m)) for c, m in zip(cases, meta)]
+    chunk = max(50, -(-len(deferred) // 3))
+    bad, errs = ctx.coq_bad_indices('c16', IMPORTS, 'c16_check', [d[0] for d in deferred], chunk=chunk)
     for e in errs:
         ctx.violation('correspondence:coq-eval', {'error': e}, False, e[:300])
-    for i in bad[:3]:
-        ctx.violation('correspondence:Shape/Transform.embedded vs Lark(transformer=T)',
-                      dict(meta[i], no_longer_checks='Coq embedded model on the LALR derivation == value lark returned'), False,
-                      'Coq embedded model differs from the value lark returned (embedded == post-hoc still holds on this case)')
-
+    seen = {'tr': 0, 'emb': 0}
+    for i in bad:
+        kind, m = deferred[i][1]
+        seen[kind] += 1
+        if seen[kind] > 3:
+            continue
+        if kind == 'tr':
+            ctx.violation('correspondence:Shape/Transform.v vs visitors.py traversals',
+                          dict(m, no_longer_checks='value / call log of the four traversals == Coq models',
+                               tree=sl.show(m['tree'])), False,
+                          'value or call log of a traversal differs from the Coq model (the four classes agree with each other)')
+        else:
+            ctx.violation('correspondence:Shape/Transform.embedded vs Lark(transformer=T)',
+                          dict(m, no_longer_checks='Coq embedded model on the LALR derivation == value lark returned'), False,
+                          'Coq embedded model differs from the value lark returned (embedded == post-hoc still holds on this case)')
     ctx.note('t_emb_coq=%.1f' % (__import__('time').time()-ctx.t0))
     # (x) exotic: a Transformer_InPlace subclass as embedded transformer (create_callback passes a Tree) ------------
     g = 'start: a B\na: A\nA: "a"\nB: "b"\n'
